@@ -265,11 +265,24 @@ def com_field_list_to_show_statement(com_field_list: ComFieldList) -> str:
 
 
 def like_to_regex(like: str) -> re.Pattern:
-    # SQL LIKE matches the whole string; everything but % and _ is literal
-    pattern = "".join(
-        ".*" if c == "%" else "." if c == "_" else re.escape(c) for c in like
+    # SQL LIKE matches the whole string; everything but % and _ is literal.
+    # The pieces between % wildcards are matched leftmost, one after the other, and
+    # never revisited (a lookahead followed by a backreference is an atomic group):
+    # matching takes time proportional to len(pattern) * len(string), whereas
+    # consecutive ".*" backtrack exponentially on a string that does not match.
+    head, *rest = [
+        "".join("." if c == "_" else re.escape(c) for c in piece)
+        for piece in like.split("%")
+    ]
+    if not rest:
+        return re.compile(head + r"\Z", re.DOTALL)
+    *middle, tail = rest
+    pattern = head + "".join(
+        f"(?=(?P<p{i}>.*?{piece}))(?P=p{i})"
+        for i, piece in enumerate(middle)
+        if piece
     )
-    return re.compile(pattern + r"\Z", re.DOTALL)
+    return re.compile(pattern + ".*" + tail + r"\Z", re.DOTALL)
 
 
 class BaseInfoSchema:
